@@ -14,6 +14,7 @@ import (
 	"encoding/hex"
 	stdjson "encoding/json"
 	"io"
+	"strings"
 
 	"github.com/segmentio/encoding/json"
 )
@@ -162,6 +163,12 @@ var c05Consumers = []synConsumer{
 		var r2 json.RawMessage
 		return d.Decode(&r2) == io.EOF
 	}, false},
+	// the same framing when the value straddles a refill of the Decoder's buffer
+	straddle("first byte", func(n int) int { return 1 }),
+	straddle("first third", func(n int) int { return n / 3 }),
+	straddle("half", func(n int) int { return n / 2 }),
+	straddle("all but two bytes", func(n int) int { return n - 2 }),
+	straddle("all but the last byte", func(n int) int { return n - 1 }),
 	{"Tokenizer(no error)", nil, false}, // placeholder: the Tokenizer is deliberately lenient (see C17); not a syntax checker
 }
 
@@ -171,6 +178,34 @@ var typedConsumers = map[string]func([]byte) bool{
 	"Unmarshal(*any)":                     func(b []byte) bool { var r any; return stdjson.Unmarshal(b, &r) == nil },
 	"Unmarshal([doc],*[]any)":             func(b []byte) bool { var r []any; return stdjson.Unmarshal(b, &r) == nil },
 	"Unmarshal([doc,\"\\n\u00e9\"],*any)": func(b []byte) bool { var r any; return stdjson.Unmarshal(b, &r) == nil },
+}
+
+// straddle: the Decoder reads its input in fills of the buffer's capacity (32 KiB at first), whatever the
+// reader returns; a first value is sized so that exactly at(len(doc)) bytes of doc arrive with the first fill
+// and the rest with the next one (after compaction).
+func straddle(name string, at func(n int) int) synConsumer {
+	return synConsumer{"Decoder.Decode(*RawMessage)+EOF, document split by a buffer refill: " + name, func(b []byte) bool {
+		p := at(len(b))
+		if p < 0 {
+			p = 0
+		}
+		const fill = 32768
+		pad := make([]byte, 0, fill+len(b))
+		pad = append(pad, '"')
+		for len(pad) < fill-p-2 {
+			pad = append(pad, 'a')
+		}
+		pad = append(pad, '"', '\n')
+		d := json.NewDecoder(bytes.NewReader(append(pad, b...)))
+		var r0, r, r2 json.RawMessage
+		if d.Decode(&r0) != nil || len(r0) != fill-p-1 {
+			return false
+		}
+		if d.Decode(&r) != nil {
+			return false
+		}
+		return d.Decode(&r2) == io.EOF
+	}, false}
 }
 
 type anyUnmarshaler struct{ got []byte }
@@ -187,7 +222,16 @@ type wrapConsumer struct {
 	accepts func(doc []byte) bool
 }
 
+// a document longer than the Decoder's buffer: several refills inside one value (whitespace is
+// inserted where the grammar allows it: WhitespaceStutters)
+var longGap = strings.Repeat(" ", 40000)
+
 var c05Wrappers = []wrapConsumer{
+	{"Decoder.Decode([0,<40000 spaces>doc],*RawMessage)+EOF", "a2", `[0,` + longGap, `]`, func(b []byte) bool {
+		d := json.NewDecoder(bytes.NewReader(b))
+		var r, r2 json.RawMessage
+		return d.Decode(&r) == nil && d.Decode(&r2) == io.EOF
+	}},
 	{"Unmarshal({\"x\":doc},*struct{})", "o", `{"x":`, `}`, func(b []byte) bool { var t struct{}; return json.Unmarshal(b, &t) == nil }},
 	{"Unmarshal({\"x\":doc},*struct{A int})", "o", `{"x":`, `}`, func(b []byte) bool {
 		var t struct{ A int }
